@@ -374,6 +374,9 @@ def summarise(pid, tier, verif_seed, results, stopped_early, wall, mod, extra=No
         "runs_by_status": status_counts,
         "distinct_event_log_digests": len(digests),
         "reach_counters": dict(sorted(counters.items())),
+        "faults_injected": {k[3:]: v for k, v in sorted(counters.items()) if k in ("fs_enospc_fired", "fs_eio_fired", "fs_eio_read_fired", "fs_crashes",
+                                                                                  "fs_torn_writes", "fs_short_reads")} or "none (this property has no I/O on its path)",
+        "random_decisions_injected": {k[4:]: v for k, v in sorted(counters.items()) if k.startswith("rng_")} or "none (no random decision on this path)",
         "runs_per_hour": int(len(results) / max(wall, 1e-6) * 3600),
         "seeds": "VERIF_SEED=%d; run seed = blake2b(VERIF_SEED, property, tier, run index), run indices 0..%d"
                  % (verif_seed, len(results) - 1),
